@@ -4,7 +4,8 @@
    SOURCE-DERIVED definitions of Gen/PixelTables.v; this file only composes them the way
    crates/resvg/src/filter/{mod,color_matrix,component_transfer,composite,morphology}.rs do.
    Executable definitions and boolean checkers only (no property proofs). *)
-From RV Require Import Model.F32 Gen.PixelTables.
+From RV Require Import Model.F32.
+From RV Require Import Gen.PixelTables.
 Local Open Scope Z_scope.
 
 (* ------------------------------------------------------------------ byte-pair kernels *)
